@@ -1,6 +1,141 @@
-From Coq Require Import List Arith Bool PeanoNat.
+(* C09 — property theorems only.  Each is closed by [exact] of a lemma of Proofs.v and followed by
+   Print Assumptions.  All statements hold for every static heap (also cyclic), every graph shape
+   and depth, every number of parallel graphs, every handler/target/dispatcher identity, every
+   initial notifier population satisfying [wfH] (stored reference counts positive, at most one user
+   notifier per identity on a list — both are invariants, [wf_is_invariant]) and every history. *)
+From Coq Require Import List Arith Bool PeanoNat Permutation.
 From TV Require Import C09.Model C09.Proofs.
 Import ListNotations.
-Theorem placeholder_exec_nil : forall rm H L, exec rm [] H L = (H, L, None).
-Proof. exact exec_nil. Qed.
-Print Assumptions placeholder_exec_nil.
+
+Theorem wf_is_invariant : forall h ops s tr s',
+  wfH (st_hooks s) -> run h s ops = (tr, s') -> wfH (st_hooks s').
+Proof. exact run_wf. Qed.
+Print Assumptions wf_is_invariant.
+
+(* The accounting equation: after ANY history (successful and failing registrations and removals of
+   any handlers and expressions, interleaved with changes and collections), every count of every
+   notifier list (reference counts of user notifiers, multiplicities of maintainers and of foreign
+   elements) is its initial value plus what the successful registrations planned minus what the
+   successful removals planned. *)
+Theorem registration_accounting : forall h ops s tr s',
+  posH (st_hooks s) -> run h s ops = (tr, s') ->
+  posH (st_hooks s') /\
+  forall o c, cntH (st_hooks s') o c + sigs_cnt h (ok_unregs tr) o c
+              = cntH (st_hooks s) o c + sigs_cnt h (ok_regs tr) o c.
+Proof. exact accounting. Qed.
+Print Assumptions registration_accounting.
+
+(* n registrations and n removals (for any number of handlers, interleaved in any order): every
+   notifier list is a permutation of its initial value — same size, same notifiers, same counts. *)
+Theorem register_n_unregister_n_identity : forall h ops s tr s',
+  wfH (st_hooks s) -> run h s ops = (tr, s') ->
+  Permutation (ok_regs tr) (ok_unregs tr) ->
+  forall o, Permutation (st_hooks s' o) (st_hooks s o).
+Proof. exact balanced_identity_perm. Qed.
+Print Assumptions register_n_unregister_n_identity.
+
+(* In between: a change of o.f calls handler k exactly once iff k's owner and target are alive and the
+   registrations of k that match (o, f) outnumber its removals; otherwise not at all.  In particular
+   no call after everything was removed. *)
+Theorem once_per_change_in_between : forall h ops s tr s1 o f s2 ob k,
+  wfH (st_hooks s) -> run h s ops = (tr, s1) -> step h s1 (Change o f) = (s2, ob) ->
+  cntH (st_hooks s) (o, f) (CK (AUser k)) = 0 ->
+  ncalls k (o_calls ob) =
+    if alive s1 k && (sigs_cnt h (ok_unregs tr) (o, f) (CK (AUser k)) <? sigs_cnt h (ok_regs tr) (o, f) (CK (AUser k)))
+    then 1 else 0.
+Proof. exact calls_in_between. Qed.
+Print Assumptions once_per_change_in_between.
+
+(* A removal of something that is not completely there raises (NotifierNotFound when no node of the
+   expression fails to apply) and leaves every list as it was. *)
+Theorem extra_unregister_raises_and_inert : forall h s x hd dp gs s' ob,
+  wfH (st_hooks s) ->
+  (exists o c, cntH (st_hooks s) o c < gsum h (hd, x, dp) gs x o c) ->
+  step h s (Unregister x hd dp gs) = (s', ob) ->
+  (exists y, o_out ob = Some y /\
+             ((forall g, In g gs -> snd (plan h (hd, x, dp) false g x) = false) -> y = NotifierNotFound))
+  /\ forall o, Permutation (st_hooks s' o) (st_hooks s o).
+Proof. exact extra_unregister_perm. Qed.
+Print Assumptions extra_unregister_raises_and_inert.
+
+(* A registration or removal that raises — at any depth of the walk, in any of several parallel
+   graphs — leaves every notifier list a permutation of what it was. *)
+Theorem failure_atomic : forall h s o s' ob,
+  wfH (st_hooks s) -> step h s o = (s', ob) -> o_out ob <> None ->
+  forall o', Permutation (st_hooks s' o') (st_hooks s o').
+Proof. exact failure_atomic_perm. Qed.
+Print Assumptions failure_atomic.
+
+(* A registration raises iff some node of some graph does not apply where it is not optional, and then
+   it raises ValueError. *)
+Theorem registration_raises_iff_structural : forall h s x hd dp gs s' ob,
+  posH (st_hooks s) -> step h s (Register x hd dp gs) = (s', ob) ->
+  (o_out ob = None <-> forall g, In g gs -> snd (plan h (hd, x, dp) false g x) = false)
+  /\ (forall y, o_out ob = Some y -> y = ValueError).
+Proof. exact register_outcome. Qed.
+Print Assumptions registration_raises_iff_structural.
+
+(* Once a handler's owner or target is dead it stays dead, is never called and no change raises. *)
+Theorem dead_target_silent : forall h ops s tr s' k,
+  run h s ops = (tr, s') -> alive s k = false ->
+  alive s' k = false /\
+  forall o f ob, In (Change o f, ob) tr -> ~ In k (o_calls ob) /\ o_out ob = None.
+Proof. exact dead_silent. Qed.
+Print Assumptions dead_target_silent.
+
+Theorem collection_mutes : forall h s o s' ob, step h s o = (s', ob) ->
+  match o with
+  | CollectOwner hd => forall t dp, alive s' (hd, t, dp) = false
+  | CollectObj t => forall hd dp, alive s' (hd, t, dp) = false
+  | _ => True
+  end.
+Proof. exact collect_kills. Qed.
+Print Assumptions collection_mutes.
+
+(* The removal walk touches exactly what the registration walk touches (as multisets), although it
+   runs the four steps in reverse order. *)
+Theorem removal_plan_is_registration_plan : forall h k o c g x,
+  snd (plan h k true g x) = snd (plan h k false g x) /\
+  (snd (plan h k false g x) = false ->
+   ecnt o c (fst (plan h k true g x)) = ecnt o c (fst (plan h k false g x))).
+Proof. exact plan_rm_equiv. Qed.
+Print Assumptions removal_plan_is_registration_plan.
+
+(* ---------- non-vacuity ---------- *)
+(* object 0 has kids = list 5 = [1; 2; 3], f = 1, g = 2; objects 1, 2 have `value` (field 2), object 3
+   has not.  Fields: 2 value, 3 f, 4 g, 5 kids, 9 nonexist. *)
+Definition ex_heap : heap :=
+  mkHeap (fun x => if x <? 4 then KObj else if x =? 5 then KCont CList else KOther)
+         (fun x f => match x with
+                     | 0 => (f =? 1) || (f =? 2) || (f =? 3) || (f =? 4) || (f =? 5)
+                     | 1 | 2 => (f =? 1) || (f =? 2) | 3 => (f =? 1) | _ => false end)
+         (fun x f => match x, f with 0, 5 => [5] | 0, 3 => [1] | 0, 4 => [2] | _, _ => [] end)
+         (fun x => if x =? 5 then [1; 2; 3] else []).
+Definition g_value := G (NNamed 2 true false) [].
+Definition g_kids_items_value := G (NNamed 5 true false) [G (NItems CList true false) [g_value]].
+Definition g_f_value := G (NNamed 3 true false) [g_value].
+Definition g_g_value := G (NNamed 4 true false) [g_value].
+Definition s0 := mkState (fun _ => []) [] [].
+
+Example wf_initial : wfH (st_hooks s0).
+Proof. exact wf_empty. Qed.
+
+(* the three shapes of the repaired finding F8 raise and leave nothing behind; in between the handler is
+   called once per change; after n = 2 registrations and removals one more removal raises *)
+Example history_nontrivial :
+  let ops := [Register 0 7 0 [g_kids_items_value];              (* third item lacks `value` *)
+              Register 0 7 0 [g_value; G (NNamed 9 true false) []]; (* "value, nonexist" *)
+              Register 0 7 0 [g_f_value];
+              Unregister 0 7 0 [g_f_value; g_g_value];          (* only f.value was registered *)
+              Change 1 2;
+              Register 0 7 0 [g_f_value]; Change 1 2;
+              Unregister 0 7 0 [g_f_value]; Unregister 0 7 0 [g_f_value]; Change 1 2;
+              Unregister 0 7 0 [g_f_value];
+              Register 0 7 0 [g_f_value]; CollectOwner 7; Change 1 2] in
+  let '(tr, s) := run ex_heap s0 ops in
+  map (fun p => (o_out (snd p), length (o_calls (snd p)))) tr =
+    [(Some ValueError, 0); (Some ValueError, 0); (None, 0); (Some NotifierNotFound, 0); (None, 1);
+     (None, 0); (None, 1); (None, 0); (None, 0); (None, 0); (Some NotifierNotFound, 0);
+     (None, 0); (None, 0); (None, 0)]
+  /\ map (fun o => length (st_hooks s o)) [(0, 1); (0, 3); (1, 1); (1, 2); (2, 2)] = [1; 2; 1; 1; 0].
+Proof. vm_compute. split; reflexivity. Qed.
